@@ -790,6 +790,77 @@ def run_pedigree(case, ctx):
     ctx.check(u.equals(want), "union.deep_pedigree", f"G={G}: subset-split and union differs from the original after canonicalise")
 
 
+# ------------------------------------------------------------------ thousands of edges; sites at neighbouring doubles
+def enum_large_split(tier, seed):
+    for T in ([1500] if tier == "quick" else [1365, 1366, 1500, 3000]):
+        for mode in ("all_reversed", "every_other", "drop_few"):
+            yield dict(kind="subset", T=T, mode=mode)
+    for p in ("2.0", "1e-300", "0.1", "1e300", "5e-324"):
+        yield dict(kind="adjacent_sites", p=p)
+
+
+def run_large_split(case, ctx):
+    import math
+
+    import tskit
+
+    ctx.nt(True)
+    if case["kind"] == "subset":
+        from .c01 import many_trees_spec
+
+        T = case["T"]
+        spec = many_trees_spec(T, 0)
+        spec["sites"] = [[i + 0.5, "A", ""] for i in range(0, T, 7)]
+        spec["mutations"] = [[j, (j % 2), "T", -1, None, "m"] for j in range(len(spec["sites"]))]
+        n = len(spec["nodes"])
+        if case["mode"] == "all_reversed":
+            nodes = list(range(n))[::-1]
+        elif case["mode"] == "every_other":
+            nodes = [0, 1, 2, 3, 4, 5] + list(range(6, n, 2))
+        else:
+            nodes = [u for u in range(n) if u % 97 != 11]
+        run_subset(dict(spec=spec, nodes=nodes, mode="large", reorder=None, remove=None, prov=False, via="tables",
+                        as_array=True), ctx)
+        ctx.nt(True)
+        return
+    # two tips below a shared ancestry; tip 1's mutation sits at p, tip 2's at the next double
+    p = float(case["p"])
+    q = math.nextafter(p, math.inf)
+    L = max(4.0, q * 2) if q < 1e200 else 1.7e308
+    full = tskit.TableCollection(L)
+    r = full.nodes.add_row(time=3.0)
+    u = full.nodes.add_row(time=2.0)
+    s1 = full.nodes.add_row(flags=1, time=0.0)
+    s2 = full.nodes.add_row(flags=1, time=0.0)
+    full.edges.add_row(0, L, u, s1)
+    full.edges.add_row(0, L, u, s2)
+    full.edges.add_row(0, L, r, u)
+    positions = sorted({p / 2 if p / 2 > 0 else 0.0, p, q, math.nextafter(q, math.inf) * 1.5})
+    for x in positions:
+        full.sites.add_row(x, "A")
+    ids = {x: j for j, x in enumerate(positions)}
+    full.mutations.add_row(ids[positions[0]], u, "G")
+    full.mutations.add_row(ids[p], s1, "T")
+    full.mutations.add_row(ids[q], s2, "C")
+    full.mutations.add_row(ids[positions[-1]], u, "G")
+    full.sort()
+    full.tree_sequence()
+    A = full.copy()
+    A.subset([r, u, s1], reorder_populations=False)
+    B = full.copy()
+    B.subset([r, u, s2], reorder_populations=False)
+    ctx.check(A.sites.num_rows == 3 and B.sites.num_rows == 3, "subset.sites", f"{A.sites.num_rows}, {B.sites.num_rows} sites")
+    un = A.copy()
+    un.union(B, node_mapping=[0, 1, -1], check_shared_equality=True, add_populations=False, record_provenance=False)
+    want = full.copy()
+    for t_ in (un, want):
+        t_.canonicalise()
+        t_.provenances.clear()
+    ctx.check(un.sites.num_rows == 4, "union.sites", f"union has {un.sites.num_rows} sites, the original has 4 "
+              f"(positions {list(un.sites.position)})")
+    ctx.check(un.equals(want), "union.adjacent_sites", f"p={p!r}: subset-split and union differs from the original")
+
+
 SUBCHECKS = [
     SubCheck("C14.subset", run_subset, strategy=subset_case, quick=10000, thorough=300000, rule=NT_SUBSET,
              floors={"nodes:perm": 0.05, "nodes:sublist": 0.1, "nodes:subset_sorted": 0.03, "nodes:empty": 0.03,
@@ -810,4 +881,7 @@ SUBCHECKS = [
                      "kind:union_migrations_other": 0.03}),
     SubCheck("C14.deep_pedigree", run_pedigree, enumerate=enum_pedigree, quick=1, thorough=1, shards=6,
              rule="subset-split / union round trip on fully inbred pedigrees of 20-40 (thorough: up to 70) generations"),
+    SubCheck("C14.large_split", run_large_split, enumerate=enum_large_split, quick=1, thorough=1, shards=8,
+             rule="subset of a 1500-tree sequence (more than 4096 edges retained) in three node orders; split-and-union with "
+             "the two parts' private sites at neighbouring doubles"),
 ]
